@@ -926,6 +926,8 @@ class Engine:
         if outcome[0] == 'normal':
             self.exits['normal'] += 1
             post_env['result'] = outcome[1]
+            if c.get('returns') == 'cseq' and isinstance(outcome[1], VTuple) and not outcome[1].items:
+                post_env['result'] = VSeq(specs.cnil)        # an empty list returned where a list of clauses is declared
             if c.get('yield_acc') == 'parities':
                 post_env['result'] = VParities(env['_ys'].term)
             elif c.get('yield_acc'):
@@ -981,6 +983,11 @@ class Engine:
                             for st in ast.parse(code).body:
                                 v = self.eval(st.value, env)
                                 self.assign(st.targets[0], v, env)
+                        except SpecError as se:
+                            # the ghost state the contract relies on does not exist on this path (e.g. an anchor statement was
+                            # changed): an auxiliary failure, like an inexpressible invariant - never a crash
+                            self.in_spec = saved
+                            self.oblige('hint', 'ghost code at `{}` [not expressible: {}]'.format(anchor[:40], se), False, s.lineno, decisive=False)
                         finally:
                             self.in_spec = saved
 
@@ -998,6 +1005,12 @@ class Engine:
                 if isinstance(t, ast.Name) and self.frames[-1]['contract'].get('locals', {}).get(t.id) == 'mclist' \
                         and isinstance(v, VTuple) and not v.items:
                     v = VMList(specs.cnil)                         # declared: a growing list of clauses
+                if isinstance(t, ast.Name) and self.frames[-1]['contract'].get('locals', {}).get(t.id) == 'mclist' \
+                        and isinstance(v, VTuple) and v.kind == 'list' and v.items and all(isinstance(x, VSeq) and x.sortname == 'ISeq' for x in v.items):
+                    tm = specs.cnil
+                    for x in v.items:
+                        tm = specs.csnoc(tm, x.term)
+                    v = VMList(tm)                                 # ... starting from a literal list of clauses
                 if isinstance(t, ast.Name) and self.frames[-1]['contract'].get('locals', {}).get(t.id) == 'paritylist' \
                         and isinstance(v, VTuple) and not v.items:
                     v = VParities(specs.cnil)                      # declared: a growing list of (variables, bit) pairs
@@ -1211,6 +1224,18 @@ class Engine:
                     names.add(b.id)
                 elif isinstance(b, ast.Attribute):
                     attrs.add(ast.unparse(b))
+        # ghost code anchored at a statement of this block assigns its ghost names too
+        gc = self.frames[-1]['contract'].get('ghost_code') if self.frames else None
+        if gc:
+            srcs = {ast.unparse(n) for n in ast.walk(ast.Module(body=list(stmts), type_ignores=[])) if isinstance(n, ast.stmt)}
+            for anchor, code in gc:
+                if anchor in srcs:
+                    for st in ast.parse(code).body:
+                        for t in getattr(st, 'targets', []):
+                            if isinstance(t, ast.Name):
+                                names.add(t.id)
+                            elif isinstance(t, ast.Attribute):
+                                attrs.add(ast.unparse(t))
         return names, attrs
 
     def havoc_value(self, name, v):
@@ -3490,7 +3515,7 @@ def sf_mapcall(eng, node, g, n, m, index):
 
 
 SPEC_FUNCS = {
-    'combs2': lambda eng, node, lo, hi: VCombs2(toz(lo), toz(hi)), 'cvar': _wrap(specs.cvar), 'degsum': _wrap(specs.degsum), 'gadj': _wrap(specs.gadj), 'pvar': _wrap(specs.pvar), 'cnb': _wrap(specs.cnb), 'nbj': _wrap(specs.nbj), 'nbv': _wrap(specs.nbv), 'lnbrs': _wrap(specs.lnbrs),
+    'combs2': lambda eng, node, lo, hi: VCombs2(toz(lo), toz(hi)), 'cvar': _wrap(specs.cvar), 'degsum': _wrap(specs.degsum), 'gadj': _wrap(specs.gadj), 'pvar': _wrap(specs.pvar), 'cnb': _wrap(specs.cnb), 'isorted': _wrap(specs.isorted), 'nbj': _wrap(specs.nbj), 'nbv': _wrap(specs.nbv), 'lnbrs': _wrap(specs.lnbrs),
     'mapcall': sf_mapcall, 'mrow': _wrap(specs.mrow), 'mcol': _wrap(specs.mcol),
     'evnest': _wrap(specs.evnest), 'dedges': _wrap(specs.dedges),
     'yxdom': _wrap(specs.yxdom),
@@ -3499,7 +3524,7 @@ SPEC_FUNCS = {
     'psat': _wrap(specs.psat), 'valid1': _wrap(specs.valid1), 'cvalid': _wrap(specs.cvalid), 'cdistinct': _wrap(specs.cdistinct),
     'cmem': _wrap(specs.cmem), 'csubsel': _wrap(specs.csubsel),
     'setof': lambda eng, node, L: VSeqSet(specs.cset(_term(L))),
-    'isnoc': _wrap(specs.isnoc), 'paug': lambda eng, node, v: VSeq(v.aug), 'ifront': _wrap(specs.ifront), 'ilast': _wrap(specs.ilast),
+    'isnoc': _wrap(specs.isnoc), 'iapp': _wrap(specs.iapp), 'paug': lambda eng, node, v: VSeq(v.aug), 'ifront': _wrap(specs.ifront), 'ilast': _wrap(specs.ilast),
     'valid1x': _wrap(specs.valid1x), 'cvalidx': _wrap(specs.cvalidx), 'psatx': _wrap(specs.psatx),
     'evrow': sf_evrowt, 'rowapp': _wrap(specs.rowapp), 'rowsfrom': _wrap(specs.rowsfrom),
     'nonnone': sf_nonnone,
@@ -3534,7 +3559,7 @@ SPEC_FUNCS = {
     'ilen': _wrap(specs.ilen), 'clen': _wrap(specs.clen), 'neg': _wrap(specs.ineg),
     'capp': _wrap(specs.capp), 'csnoc': _wrap(specs.csnoc), 'combs': _wrap(specs.combs),
     'ctake': _wrap(specs.ctake), 'haszero': _wrap(specs.haszero), 'maxabs': _wrap(specs.maxabs), 'minof': _wrap(specs.minof), 'maxof': _wrap(specs.maxof),
-    'cmaxabs': _wrap(specs.cmaxabs), 'chaszero': _wrap(specs.chaszero), 'cnil': VSeq(specs.cnil), 'pow2': _wrap(POW2),
+    'cmaxabs': _wrap(specs.cmaxabs), 'chaszero': _wrap(specs.chaszero), 'cnil': VSeq(specs.cnil), 'inil': VSeq(specs.inil), 'pow2': _wrap(POW2),
     'iget': _wrap(specs.iget), 'cget': _wrap(specs.cget),
     'wsum': _wrap(specs.wsum), 'tlen': _wrap(specs.tlen), 'tcoef': _wrap(specs.tcoef), 'tlit': _wrap(specs.tlit),
     'thaszero': _wrap(specs.thaszero), 'tmaxabs': _wrap(specs.tmaxabs), 'tnonneg': _wrap(specs.tnonneg),
@@ -3553,7 +3578,7 @@ SPEC_FUNCS = {
                                        else z3.If(toz(as_bool(c)), toz(a), toz(b))),
 }
 # constants exposed as names
-_CONST_SPECS = {'cnil'}
+_CONST_SPECS = {'cnil', 'inil'}
 
 
 def _ev_name_patch(orig):
@@ -4083,6 +4108,8 @@ def lib_sorted(eng, node, seq, key=None):
                                 patterns=[specs.iget(r.term, i)]))
         eng.pc.append(z3.ForAll([i, j], z3.Implies(z3.And(0 <= i, i < j, j < n), specs.iget(r.term, i) < specs.iget(r.term, j))))
         return r
+    if isinstance(seq, VSeq) and seq.sortname == 'ISeq' and key is None:
+        return VSeq(specs.isorted(seq.term))          # sorted(X): some function of X (its ordering properties are not modelled here)
     if isinstance(seq, VPairs) and getattr(seq, 'enumerate_of', None) is not None and isinstance(key, VClosure) \
             and isinstance(key.node, ast.Lambda) and ast.unparse(key.node.body) == '{}[1]'.format(key.node.args.args[0].arg):
         # sorted(enumerate(p), key=lambda x: x[1])  for p a permutation of 0..n-1: the i-th element is (p^-1(i), i)
@@ -4201,6 +4228,26 @@ LIBRARY['collections.OrderedDict'] = lambda eng, node, *a: VOpaque('OrderedDict'
 LIBRARY['copy.copy'] = lib_copy
 LIBRARY['copy'] = lib_copy
 LIBRARY['bisect.bisect_right'] = lib_bisect_right
+def lm_mclist_sort(eng, node, o):
+    """list.sort() on a list of integer lists: afterwards the list holds the same items in SOME order (a permutation; that the
+    order is the lexicographic one is not modelled)"""
+    if o.term.sort() != specs.CSeq:
+        raise Unsupported('sort() of this list')
+    eng.nsort = getattr(eng, 'nsort', 0) + 1
+    old, new = o.term, eng.fresh('sorted_list', specs.CSeq)
+    fwd = z3.Function('perm_fwd!{}'.format(eng.nsort), z3.IntSort(), z3.IntSort())
+    bwd = z3.Function('perm_bwd!{}'.format(eng.nsort), z3.IntSort(), z3.IntSort())
+    i = z3.Int('i!srt')
+    n = specs.clen(old)
+    eng.pc.append(specs.clen(new) == n)
+    eng.pc.append(z3.ForAll([i], z3.Implies(z3.And(0 <= i, i < n), z3.And(0 <= fwd(i), fwd(i) < n, specs.cget(new, i) == specs.cget(old, fwd(i)))),
+                            patterns=[specs.cget(new, i)]))
+    eng.pc.append(z3.ForAll([i], z3.Implies(z3.And(0 <= i, i < n), z3.And(0 <= bwd(i), bwd(i) < n, specs.cget(old, i) == specs.cget(new, bwd(i)))),
+                            patterns=[specs.cget(old, i)]))
+    o.term = new
+    return None
+
+
 def lm_iseq_index(eng, node, o, x):
     """list.index(x) on a sequence of ints: ValueError iff x does not occur, otherwise the FIRST position holding x"""
     t = o.term
@@ -4233,7 +4280,7 @@ def lm_tuple_index(eng, node, o, x):
     return r
 
 
-LIST_METHODS = {('VTuple', 'index'): lm_tuple_index, ('VSeq', 'index'): lm_iseq_index, ('VStr', 'strip'): lm_str_strip, ('VStr', 'split'): lm_str_split, ('VStr', 'isascii'): lm_str_pred,
+LIST_METHODS = {('VMList', 'sort'): lm_mclist_sort, ('VTuple', 'index'): lm_tuple_index, ('VSeq', 'index'): lm_iseq_index, ('VStr', 'strip'): lm_str_strip, ('VStr', 'split'): lm_str_split, ('VStr', 'isascii'): lm_str_pred,
                 ('VStr', 'isdigit'): lm_str_pred, ('VStr', 'startswith'): lm_str_pred, ('VStr', 'lstrip'): lm_str_strip,
                 ('VStr', 'rstrip'): lm_str_strip, ('VOpaqueFile', 'readlines'): lm_readlines, ('VArr2', 'get'): lm_dict_get, ('VRow', 'insert'): lm_row_insert, ('VRow', 'remove'): lm_row_remove, ('VArr2', 'append'): lm_arr2_append,
                 ('VSet2', 'add'): lm_set_add, ('VSet2', 'remove'): lm_set_remove,('VTuple', 'append'): lm_append, ('VCounted', 'append'): lm_append, ('VMList', 'append'): lm_append, ('VArr', 'append'): lm_append,
